@@ -288,6 +288,10 @@ def _blocks(fn: ast.AST):
     return out
 
 
+def _is_pattern_gap(st) -> bool:
+    return isinstance(st, ast.Expr) and isinstance(st.value, ast.Name) and st.value.id == '___'
+
+
 def _is_bare(st, kind) -> bool:
     return isinstance(st, kind) and (not isinstance(st, ast.Return) or st.value is None or (isinstance(st.value, ast.Constant) and st.value.value is None))
 
@@ -424,58 +428,98 @@ class BlockLevel:
         return out
 
     def push_use(self, stmts):
-        """`if c: x = a else: x = b` followed by `return x` or by a call statement with x as a plain argument, the only reader of x
-        ->  that statement, with a resp. b for x, in each arm"""
+        """`if c: x = a else: x = b` followed by `return x` or by a call statement with x as a plain argument
+        ->  that statement, with a resp. b for x, in each arm (x being written only by such arms and read only by such statements)"""
+        ok = self._pushable()
         out = []
         i = 0
-        loads = stores = None
         while i < len(stmts):
             st = stmts[i]
             nxt = stmts[i + 1] if i + 1 < len(stmts) else None
-            direct = isinstance(nxt, ast.Return) and isinstance(nxt.value, ast.Name)
-            direct = direct or (isinstance(nxt, ast.Expr) and isinstance(nxt.value, ast.Call) and any(isinstance(a, ast.Name) for a in nxt.value.args) and not any(
-                isinstance(n, ast.Name) and isinstance(n.ctx, ast.Load) for a in nxt.value.args if not isinstance(a, ast.Name) for n in ast.walk(a)))
-            if isinstance(st, ast.If) and st.orelse and direct:
-                leaves = []
-
-                def arms(node, x):
-                    for arm in (node.body, node.orelse):
-                        if len(arm) == 1 and isinstance(arm[0], ast.If) and arm[0].orelse:
-                            if not arms(arm[0], x):
-                                return False
-                        elif arm and isinstance(arm[-1], ast.Assign) and len(arm[-1].targets) == 1 and isinstance(arm[-1].targets[0], ast.Name) and (x is None or arm[-1].targets[0].id == x):
-                            leaves.append(arm)
-                        else:
-                            return False
-                    return True
-
-                first = st.body[-1] if st.body else None
-                x = first.targets[0].id if isinstance(first, ast.Assign) and len(first.targets) == 1 and isinstance(first.targets[0], ast.Name) else None
-                if x is not None and arms(st, x):
-                    if loads is None:
-                        loads, stores = _loads_stores(self.fn)
-                    uses = [n for n in ast.walk(nxt) if isinstance(n, ast.Name) and n.id == x and isinstance(n.ctx, ast.Load)]
-                    if loads.get(x) == 1 and len(uses) == 1 and stores.get(x) == len(leaves):
-                        for arm in leaves:
-                            a = arm[-1]
-                            use = copy.deepcopy(nxt)
-                            for n in ast.walk(use):
-                                for field, v in ast.iter_fields(n):
-                                    if isinstance(v, ast.Name) and v.id == x and isinstance(v.ctx, ast.Load):
-                                        setattr(n, field, a.value)
-                                    elif isinstance(v, list):
-                                        for k, e in enumerate(v):
-                                            if isinstance(e, ast.Name) and e.id == x and isinstance(e.ctx, ast.Load):
-                                                v[k] = a.value
-                            arm[-1] = ast.copy_location(use, a)
-                        out.append(st)
-                        i += 2
-                        continue
+            cand = self._push_candidate(st, nxt)
+            if cand is not None and cand[0] in ok:
+                x, leaves = cand
+                for arm in leaves:
+                    a = arm[-1]
+                    use = copy.deepcopy(nxt)
+                    for n in ast.walk(use):
+                        for field, v in ast.iter_fields(n):
+                            if isinstance(v, ast.Name) and v.id == x and isinstance(v.ctx, ast.Load):
+                                setattr(n, field, a.value)
+                            elif isinstance(v, list):
+                                for k, e in enumerate(v):
+                                    if isinstance(e, ast.Name) and e.id == x and isinstance(e.ctx, ast.Load):
+                                        v[k] = a.value
+                    arm[-1] = ast.copy_location(use, a)
+                out.append(st)
+                i += 2
+                continue
             out.append(st)
             i += 1
         return out
 
+    @staticmethod
+    def _push_candidate(st, nxt):
+        if not (isinstance(st, ast.If) and st.orelse and nxt is not None):
+            return None
+        direct = isinstance(nxt, ast.Return) and isinstance(nxt.value, ast.Name)
+        direct = direct or (isinstance(nxt, ast.Expr) and isinstance(nxt.value, ast.Call) and any(isinstance(a, ast.Name) for a in nxt.value.args) and not any(
+            isinstance(n, ast.Name) and isinstance(n.ctx, ast.Load) for a in nxt.value.args if not isinstance(a, ast.Name) for n in ast.walk(a)))
+        if not direct:
+            return None
+        first = st.body[-1] if st.body else None
+        x = first.targets[0].id if isinstance(first, ast.Assign) and len(first.targets) == 1 and isinstance(first.targets[0], ast.Name) else None
+        if x is None:
+            return None
+        leaves = []
+
+        def arms(node):
+            for arm in (node.body, node.orelse):
+                if len(arm) == 1 and isinstance(arm[0], ast.If) and arm[0].orelse:
+                    if not arms(arm[0]):
+                        return False
+                elif arm and isinstance(arm[-1], ast.Assign) and len(arm[-1].targets) == 1 and isinstance(arm[-1].targets[0], ast.Name) and arm[-1].targets[0].id == x:
+                    leaves.append(arm)
+                else:
+                    return False
+            return True
+
+        if not arms(st):
+            return None
+        uses = [n for n in ast.walk(nxt) if isinstance(n, ast.Name) and n.id == x and isinstance(n.ctx, ast.Load)]
+        if len(uses) != 1:
+            return None
+        return x, leaves
+
+    def _pushable(self) -> set:
+        """names all of whose writes are arms of such ifs and all of whose reads are the statements that follow them"""
+        loads, stores = _loads_stores(self.fn)
+        n_pairs: dict[str, int] = {}
+        n_leaves: dict[str, int] = {}
+        for owner, field in _blocks(self.fn):
+            v = getattr(owner, field)
+            for a, b in zip(v, v[1:]):
+                c = self._push_candidate(a, b)
+                if c is not None:
+                    n_pairs[c[0]] = n_pairs.get(c[0], 0) + 1
+                    n_leaves[c[0]] = n_leaves.get(c[0], 0) + len(c[1])
+        return {x for x in n_pairs if loads.get(x) == n_pairs[x] and stores.get(x) == n_leaves[x]}
+
+    def raise_first(self, stmts):
+        """a block that ends with `if c: return x` + `raise E` is written `if not c: raise E` + `return x`"""
+        if len(stmts) >= 2 and isinstance(stmts[-1], ast.Raise) and isinstance(stmts[-2], ast.If) and not stmts[-2].orelse and len(stmts[-2].body) == 1 and isinstance(stmts[-2].body[0], ast.Return):
+            iff, rz = stmts[-2], stmts[-1]
+            new_if = ast.copy_location(ast.If(test=nnf(negate(iff.test)), body=[rz], orelse=[]), iff)
+            return stmts[:-2] + [new_if, iff.body[0]]
+        # (in a pattern the message may be built by a gap `___` in front of the raise)
+        if len(stmts) >= 3 and isinstance(stmts[-1], ast.Raise) and _is_pattern_gap(stmts[-2]) and isinstance(stmts[-3], ast.If) and not stmts[-3].orelse and len(stmts[-3].body) == 1 and isinstance(stmts[-3].body[0], ast.Return):
+            iff = stmts[-3]
+            new_if = ast.copy_location(ast.If(test=nnf(negate(iff.test)), body=[stmts[-2], stmts[-1]], orelse=[]), iff)
+            return stmts[:-3] + [new_if, iff.body[0]]
+        return stmts
+
     def block(self, stmts: list, owner, field) -> list:
+        stmts = self.raise_first(stmts)
         stmts = self.push_use(stmts)
         stmts = self.expand_ifexp(stmts)
         stmts = self.swap_and_hoist(stmts, self.bare_kind(owner, field))
@@ -711,6 +755,35 @@ class _Subst(ast.NodeTransformer):
         return node
 
 
+def _tail_returns(stmts: list, res: str):
+    """the statements with every return (all of them must be in tail position) replaced by `res = value`, or None"""
+    if not stmts:
+        return None
+    *head, last = stmts
+    if any(isinstance(n, ast.Return) for st in head for n in ast.walk(st) if not isinstance(st, ast.If)):
+        return None
+    for i, st in enumerate(head):
+        if isinstance(st, ast.If) and any(isinstance(n, ast.Return) for n in ast.walk(st)):
+            # `if c: ...return` followed by the rest: both arms are tails
+            if st.orelse or not st.body or not isinstance(st.body[-1], ast.Return):
+                return None
+            a = _tail_returns(st.body, res)
+            b = _tail_returns(stmts[i + 1:], res)
+            if a is None or b is None:
+                return None
+            return head[:i] + [ast.copy_location(ast.If(test=st.test, body=a, orelse=b), st)]
+    if isinstance(last, ast.Return):
+        v = last.value if last.value is not None else ast.Constant(value=None)
+        return head + [ast.copy_location(ast.Assign(targets=[ast.Name(id=res, ctx=ast.Store())], value=v, type_comment=None), last)]
+    if isinstance(last, ast.If):
+        a = _tail_returns(last.body, res)
+        b = _tail_returns(last.orelse, res) if last.orelse else None
+        if a is None or b is None:
+            return None
+        return head + [ast.copy_location(ast.If(test=last.test, body=a, orelse=b), last)]
+    return None
+
+
 def _inline_body(helper: ast.FunctionDef, call: ast.Call, is_method: bool, tag: str, line_of):
     """(statements, result expression or None) of the helper applied to the arguments of `call`, or None when it cannot be inlined"""
     a = helper.args
@@ -741,6 +814,13 @@ def _inline_body(helper: ast.FunctionDef, call: ast.Call, is_method: bool, tag: 
         for x in reversed(body[:-1]):
             e = ast.IfExp(test=x.test, body=x.body[0].value, orelse=e)
         body = [ast.copy_location(ast.Return(value=e), body[-1])]
+    # several returns, all in tail position: `if c: A; return e1` + `B; return e2`  ->  `if c: A; r = e1 else: B; r = e2`
+    if sum(isinstance(n, ast.Return) for s in body for n in ast.walk(s)) > 1:
+        structured = _tail_returns(body, f'result__{tag}')
+        if structured is not None:
+            body = structured + [ast.Return(value=ast.Name(id=f'result__{tag}', ctx=ast.Load()))]
+            for x in body:
+                ast.fix_missing_locations(ast.copy_location(x, helper))
     # returns: none, or one final `return e`
     rets = [n for s in body for n in ast.walk(s) if isinstance(n, ast.Return)]
     result = None
@@ -934,10 +1014,13 @@ def _functions(tree: ast.AST):
 
 def normalise_module(tree: ast.Module, path: str) -> ast.Module:
     tree = NodeLevel().visit(tree)
-    inline_unknown_helpers(tree, path)
-    # innermost functions first
+    # innermost functions first; helpers are normalised before they are expanded into their callers, callers again afterwards
     for fn in reversed(list(_functions(tree))):
         BlockLevel(fn).run()
+    inline_unknown_helpers(tree, path)
+    if any(getattr(fn, '_verif_expanded', 0) for fn in _functions(tree)):
+        for fn in reversed(list(_functions(tree))):
+            BlockLevel(fn).run()
     ast.fix_missing_locations(tree)
     number(tree)
     return tree
